@@ -90,11 +90,16 @@ PPow(s, i) ==
 PNeg(s, i) == IF IsStr(At(s, i), "-")
               THEN LET r == PPow(s, i + 1) IN IF r.ok THEN Ok([t |-> "neg", a |-> r.t], r.i) ELSE Fail
               ELSE PPow(s, i)
+\* parallel is n-ary: a || b || c = 1 / (1/a + 1/b + 1/c) is NOT the same as (a || b) || c when a partial sum of
+\* reciprocals vanishes (.25 || -.25 || 4 = 4), so the operands are kept as one list
 PParTail(s, acc, i) ==
   IF IsStr(At(s, i), "|") /\ IsStr(At(s, i + 1), "|") THEN
-     LET r == PNeg(s, i + 2) IN IF r.ok THEN PParTail(s, [t |-> "par", a |-> acc, b |-> r.t], r.i) ELSE Ok(acc, i)
+     LET r == PNeg(s, i + 2) IN IF r.ok THEN PParTail(s, Append(acc, r.t), r.i) ELSE Ok(acc, i)
   ELSE Ok(acc, i)
-PPar(s, i) == LET a == PNeg(s, i) IN IF a.ok THEN PParTail(s, a.t, a.i) ELSE Fail
+PPar(s, i) == LET a == PNeg(s, i) IN
+              IF ~a.ok THEN Fail
+              ELSE LET r == PParTail(s, <<a.t>>, a.i) IN
+                   IF Len(r.t) = 1 THEN Ok(r.t[1], r.i) ELSE Ok([t |-> "par", xs |-> r.t], r.i)
 PProdTail(s, acc, i) ==
   IF OpIn(At(s, i), {"*", "/"}) THEN
      LET r == PPar(s, i + 1) IN
@@ -125,33 +130,39 @@ RECURSIVE UVars(_), UFuncs(_), USufs(_), HasArr(_), UnionSeq(_, _, _)
 UnionSeq(F(_), sq, i) == IF i > Len(sq) THEN {} ELSE F(sq[i]) \cup UnionSeq(F, sq, i + 1)
 UVars(t) == IF t.t = "var" THEN {t.n} ELSE IF t.t = "num" THEN {} ELSE IF t.t = "neg" THEN UVars(t.a)
             ELSE IF t.t = "call" THEN UnionSeq(UVars, t.args, 1) ELSE IF t.t = "arr" THEN UnionSeq(UVars, t.elems, 1)
+            ELSE IF t.t = "par" THEN UnionSeq(UVars, t.xs, 1)
             ELSE UVars(t.a) \cup UVars(t.b)
 UFuncs(t) == IF t.t \in {"var", "num"} THEN {} ELSE IF t.t = "neg" THEN UFuncs(t.a)
              ELSE IF t.t = "call" THEN {t.n} \cup UnionSeq(UFuncs, t.args, 1)
              ELSE IF t.t = "arr" THEN UnionSeq(UFuncs, t.elems, 1)
+             ELSE IF t.t = "par" THEN UnionSeq(UFuncs, t.xs, 1)
              ELSE UFuncs(t.a) \cup UFuncs(t.b)
 USufs(t) == IF t.t = "var" THEN {} ELSE IF t.t = "num" THEN (IF t.suf = "" THEN {} ELSE {t.suf})
             ELSE IF t.t = "neg" THEN USufs(t.a)
             ELSE IF t.t = "call" THEN UnionSeq(USufs, t.args, 1) ELSE IF t.t = "arr" THEN UnionSeq(USufs, t.elems, 1)
+            ELSE IF t.t = "par" THEN UnionSeq(USufs, t.xs, 1)
             ELSE USufs(t.a) \cup USufs(t.b)
 HasArr(t) == IF t.t \in {"var", "num"} THEN FALSE ELSE IF t.t = "neg" THEN HasArr(t.a)
              ELSE IF t.t = "call" THEN \E i \in 1..Len(t.args) : HasArr(t.args[i]) ELSE IF t.t = "arr" THEN TRUE
+             ELSE IF t.t = "par" THEN \E i \in 1..Len(t.xs) : HasArr(t.xs[i])
              ELSE HasArr(t.a) \/ HasArr(t.b)
 Usage(t) == [vars |-> UVars(t), funcs |-> UFuncs(t), sufs |-> USufs(t)]
 
 \* ---------------------------------------------------------------- canonical (fully parenthesised) rendering
-RECURSIVE Canon(_), CanonList(_, _)
+RECURSIVE Canon(_), CanonList(_, _), CanonPar(_, _)
 Wrap(ts) == <<Op("(")>> \o ts \o <<Op(")")>>
 CanonList(sq, i) == IF i > Len(sq) THEN <<>>
                     ELSE (IF i > 1 THEN <<Op(",")>> ELSE <<>>) \o Canon(sq[i]) \o CanonList(sq, i + 1)
-BinOp == ("mul" :> <<Op("*")>> @@ "div" :> <<Op("/")>> @@ "add" :> <<Op("+")>> @@ "sub" :> <<Op("-")>>
-          @@ "par" :> <<Op("|"), Op("|")>>)
+BinOp == ("mul" :> <<Op("*")>> @@ "div" :> <<Op("/")>> @@ "add" :> <<Op("+")>> @@ "sub" :> <<Op("-")>>)
+CanonPar(sq, i) == IF i > Len(sq) THEN <<>>
+                   ELSE (IF i > 1 THEN <<Op("|"), Op("|")>> ELSE <<>>) \o Wrap(Canon(sq[i])) \o CanonPar(sq, i + 1)
 Canon(t) ==
   IF t.t = "num" THEN <<Tok("num", "#", t.v, FALSE)>> \o
                       (IF t.suf = "" THEN <<>> ELSE IF t.suf = "%" THEN <<Pct>> ELSE <<Name(t.suf, TRUE)>>)
   ELSE IF t.t = "var" THEN <<Name(t.n, FALSE)>>
   ELSE IF t.t = "call" THEN <<Name(t.n, FALSE), Op("(")>> \o CanonList(t.args, 1) \o <<Op(")")>>
   ELSE IF t.t = "arr" THEN <<Op("[")>> \o CanonList(t.elems, 1) \o <<Op("]")>>
+  ELSE IF t.t = "par" THEN CanonPar(t.xs, 1)
   ELSE IF t.t = "neg" THEN <<Op("-")>> \o Wrap(Canon(t.a))
   ELSE IF t.t = "pow" THEN Wrap(Canon(t.a)) \o <<Op("^")>> \o
                            (IF t.neg THEN <<Op("-")>> ELSE <<>>) \o Wrap(Canon(t.b))
